@@ -28,7 +28,7 @@ CHECKS = {
    "Built with overflow-checks and debug-assertions. AMF0 nesting depth <= 4 here (C14 owns depth). u32 acknowledgement counters need ~4 GiB per session to overflow: stated, not checked. Hang = 60 s watchdog on cases that take microseconds."),
  "C04": ("exploration",
    "property-based testing: round-trip oracle with structural (bitwise / unordered-map) equality",
-   "serialize either errs or its bytes decode, consuming everything, to the identical list (numbers bit-for-bit, objects as maps). Boundary lengths 65534..70000 for strings and names, NaN payloads, -0, nesting to depth 4. One known finding (empty property name) is excluded from the main campaign by construction and exercised by a dedicated sub-check that reports it as KNOWN-FINDING.",
+   "serialize either errs or its bytes decode, consuming everything, to the identical list (numbers bit-for-bit, objects as maps). Boundary lengths 65534..70000 for strings and names, NaN payloads, -0, nesting to depth 4. The empty property name (D10) was carried as a known finding and is now repaired in /repo (94e5ae5); the dedicated sub-check stays and enforces it.",
    "DESIGN.md §4 C04",
    "An Err from the encoder is never a C04 violation (C12/C19 assert that representable values are not refused)."),
  "C05": ("exploration",
@@ -87,10 +87,10 @@ CHECKS = {
    "DESIGN.md §4 C15",
    "Error position is judged at the granularity the API has. Acknowledgements and session-generated timestamps are masked (C17/C18 own them)."),
  "C16": ("exploration",
-   "differential testing against a per-chunk-stream reference reassembler over generated chunk interleavings; known finding classified by signature",
-   "2..4 multi-chunk messages on distinct chunk streams, reference-encoded and merged by a generated interleaving; expected deliveries come from RefChunkDec. The library reassembles into one shared buffer (known finding D11): failures whose first divergence is at/after the first overlap point are reported as KNOWN-FINDING; overlap-free orders and everything before the first overlap must still be correct and are judged as violations otherwise.",
-   "DESIGN.md §4 C16",
-   "Until the library reassembles per chunk stream, the property is only enforced outside the recorded finding; the evidence reports how many cases were set aside. Delivery timing (each message out in the call that supplies its last chunk) is judged up to the first overlap point."),
+   "differential testing against a per-chunk-stream reference reassembler over generated chunk interleavings, plus the delivery-timing clause",
+   "2..4 multi-chunk messages on distinct chunk streams, reference-encoded and merged by a generated interleaving, behind a sequential prefix on several chunk streams (and, in one sub-check, on 63..4097 of them); expected deliveries come from RefChunkDec; each message must also be out in the call that supplies its last chunk. The defect this check first reported (D11: one reassembly buffer shared by all chunk streams) was carried as a known finding and is now repaired in /repo (c2ab1c5); every interleaving is enforced, nothing is set aside.",
+   "DESIGN.md §4 C16, §9.2",
+   "The signature classification of the old finding stays in the code, so a regression is named; known_findings.txt lists it as fixed, which suppresses nothing."),
  "C17": ("exploration",
    "model-based testing: ModelAck counter model driven by the layout of generated inbound streams; W = 1..64 enumerated",
    "For both session kinds, every W in 1..=64 and a pool of larger windows, generated valid inbound streams with the window message at a generated position and re-announcements, and call sizes from {0,1,W-1,W,W+1,2W,random}: the model predicts in which calls an Acknowledgement appears and its value; conservation and 'fewer than W outstanding' are asserted after every call.",
